@@ -261,7 +261,9 @@ def run(pid, tier, seed, args, t0):
             'ledger_missing': missing,
             'known_findings_printed': known_lines,
             'samples': samples,
-            'explanation': P.get('explanation', ''),
+            'explanation': P.get('explanation') or ('%d of %d named obligations generated from the current source are discharged; '
+                            'the undischarged ones are %s' % (n_dis, n_obl, 'the known findings printed by this run'
+                            if known_lines and not violations else 'reported as violations / undecided')),
             'not_decided': P.get('not_decided', []),
         },
         'assumptions': sorted(assumptions),
